@@ -121,17 +121,23 @@ def _b7_meets(obs, rule):
 
 
 def equal(a, b):
-    """a = implementation, b = model.  Everything must be textually equal except the last token of BC7 cases: the
+    """a = implementation, b = model.  Everything must be textually equal except the `b7` token (7th) of BC7 cases: the
     implementation prints the header fields of every emitted block (its own bit reader), the model prints
     `<the same fields read with its reader>@<what its discrete rules allow for the input block>`; the fields must be
-    textually equal and every block must meet its rule (membership, as for the `plan` sets of C16)."""
+    textually equal and every block must meet its rule (membership, as for the `plan` sets of C16).  The tokens after it
+    (`w7`: hash of every BC7 block re-written by `Enc7.write`; `cl7`: hash of the block `Enc7.emit` re-derives from the
+    emitted parameters and the original pixels) must be textually equal.
+    `no-hook`: a direct-tie case (`w7h`, `cl7h`; only generated when `dds::verif_hook::bc7_write` exists) read from a
+    corpus / replay file while the library under test has no hook - skipped, not compared."""
     if a == b:
         return True
+    if a == "no-hook":
+        return True
     ta, tb = a.split(" "), b.split(" ")
-    if len(ta) != len(tb) or len(ta) != 7 or ta[:-1] != tb[:-1] or "@" not in tb[-1]:
+    if len(ta) != len(tb) or len(ta) != 9 or ta[:6] != tb[:6] or ta[7:] != tb[7:] or "@" not in tb[6]:
         return False
-    obs, rules = tb[-1].split("@", 1)
-    if obs != ta[-1]:
+    obs, rules = tb[6].split("@", 1)
+    if obs != ta[6]:
         return False
     lo, lr = obs.split(";"), rules.split(";")
     return len(lo) == len(lr) and all(_b7_meets(x, y) for x, y in zip(lo, lr))
